@@ -15,6 +15,10 @@ pub enum Sig {
     /// single monomial u^k (basis element)
     Mono { k: u8 },
     Sine { f: f64, a: f64, ph: f64 },
+    /// polynomial in v = (n - centre) / scale with a scale of a few samples, so that its finite
+    /// differences up to the full degree are of order one inside the checked region |v| <= 2
+    /// (coefficients in increasing power; mono >= 0 selects the single monomial v^mono)
+    Local { coefs: Vec<f64>, mono: i8, scale: f64 },
 }
 
 #[derive(Clone, Debug, Serialize, Deserialize)]
@@ -44,6 +48,7 @@ fn run_t<T: SampleX>(c: &Case) -> Outcome {
     let pd = poly_degree(c.degree);
     let n_in = (c.out_frames as f64 / c.ratio) as usize + 4 * c.chunk + 64;
     let scale = n_in as f64;
+    let mut local: Option<(Vec<f64>, f64)> = None;
     let (sig, sum_abs, slope, label) = match &c.sig {
         Sig::Poly { coefs } => {
             let cs: Vec<f64> = coefs.iter().take(pd + 1).cloned().collect();
@@ -57,9 +62,31 @@ fn run_t<T: SampleX>(c: &Case) -> Outcome {
             cs[k] = 1.0;
             (Signal::Poly { coefs: cs, scale }, 1.0, k as f64 / scale, "basis")
         }
+        Sig::Local { coefs, mono, scale: sc } => {
+            let mut cs: Vec<f64> = coefs.iter().take(pd + 1).cloned().collect();
+            cs.resize(pd + 1, 0.0);
+            if *mono >= 0 {
+                let k = (*mono as usize) % (pd + 1);
+                cs = vec![0.0; k + 1];
+                cs[k] = 1.0;
+            }
+            // magnitude and slope bounds inside |v| <= 2
+            let s: f64 = cs.iter().enumerate().map(|(k, v)| v.abs() * 2f64.powi(k as i32)).sum();
+            let sl: f64 = cs.iter().enumerate().map(|(k, v)| k as f64 * v.abs() * 2f64.powi(k as i32 - 1)).sum::<f64>() / sc;
+            local = Some((cs.clone(), *sc));
+            (Signal::Zeros, s.max(1e-3), sl, "local-poly")
+        }
         Sig::Sine { f, a, ph } => (Signal::Tones { tones: vec![Tone { f: *f, a: *a, ph: *ph }] }, *a, 2.0 * std::f64::consts::PI * f * a, "sine"),
     };
     o.class(label);
+    // local polynomial: expand q(v), v = (n - centre)/scale, exactly as a Signal::Poly in u = n/scale with shifted coefficients
+    let centre = (n_in / 2) as f64;
+    let sig = if let Some((cs, sc)) = &local {
+        // q(u - c0) with c0 = centre/scale: binomial expansion in f64 would lose digits; evaluate through a dedicated signal instead
+        Signal::LocalPoly { coefs: cs.clone(), centre, scale: *sc }
+    } else {
+        sig
+    };
     let y = match stream_out::<T>(&cfg, &sig, c.out_frames) {
         Ok(y) => y,
         Err(e) => {
@@ -95,6 +122,12 @@ fn run_t<T: SampleX>(c: &Case) -> Outcome {
         if tj < 4.0 || tj > (n_in as f64) - 8.0 {
             continue;
         }
+        if let Some((_, sc)) = &local {
+            // only where the polynomial and all window samples are of order one
+            if (tj - centre).abs() > 2.0 * sc - 5.0 {
+                continue;
+            }
+        }
         let pos_tol = 8.0 * (j as f64 + 1.0) * ulp + 4.0 * ulp;
         let (want, extra) = if nearest {
             // the sample at or just before the instant; within rounding of an integer either neighbour is right
@@ -116,6 +149,14 @@ fn run_t<T: SampleX>(c: &Case) -> Outcome {
                     s
                 }
                 Signal::Tones { tones } => tones[0].a * (2.0 * std::f64::consts::PI * tones[0].f * tj + tones[0].ph).cos(),
+                Signal::LocalPoly { coefs, centre, scale } => {
+                    let v = (tj - centre) / scale;
+                    let mut s = 0.0;
+                    for cf in coefs.iter().rev() {
+                        s = s * v + cf;
+                    }
+                    s
+                }
                 _ => unreachable!(),
             };
             (want, 0.0)
@@ -140,7 +181,7 @@ fn run_t<T: SampleX>(c: &Case) -> Outcome {
     o.maxi(&format!("worst_err_over_tol:{}:{}", label, if c.f32 { "f32" } else { "f64" }), worst);
     o.count("frames_checked", checked);
     o.count("distinct_fractional_positions", fracs.len() as u64);
-    o.nontrivial = checked >= 200 && fracs.len() >= 2;
+    o.nontrivial = (checked >= 200 || (local.is_some() && checked >= 8)) && fracs.len() >= 2;
     if fracs.len() >= 64 {
         o.class("fractional-positions>=64");
     }
@@ -166,6 +207,7 @@ impl Property for C08 {
             3 => proptest::collection::vec(-1.0f64..1.0, 8).prop_map(|coefs| Sig::Poly { coefs }),
             2 => (0u8..8).prop_map(|k| Sig::Mono { k }),
             3 => (0.0005f64..0.45, 0.1f64..2.0, 0.0f64..6.28).prop_map(|(f, a, ph)| Sig::Sine { f, a, ph }),
+            3 => (proptest::collection::vec(-1.0f64..1.0, 8), prop_oneof![2 => Just(-1i8), 1 => 0i8..8], 6.0f64..40.0).prop_map(|(coefs, mono, scale)| Sig::Local { coefs, mono, scale }),
         ];
         let frames = if tier.thorough() { 2000usize..20000 } else { 1500usize..4000 };
         (any::<bool>(), any::<bool>(), 0u8..5, ratio_strategy(), chunk_strategy(4096), sig, frames)
@@ -192,6 +234,16 @@ impl Property for C08 {
                         for f32 in [false, true] {
                             v.push(Case { fixed_out, f32, degree, ratio, chunk, sig: Sig::Mono { k }, out_frames: 3000 });
                         }
+                    }
+                }
+            }
+        }
+        // the same basis on a scale of a few samples, where the k-th finite difference of v^k is of order one
+        for degree in 0..4u8 {
+            for k in 0..=poly_degree(degree) as i8 {
+                for fixed_out in [false, true] {
+                    for (ratio, chunk, scale) in [(0.7391, 16, 8.0), (1.61803, 64, 12.0), (5.3, 7, 6.5)] {
+                        v.push(Case { fixed_out, f32: false, degree, ratio, chunk, sig: Sig::Local { coefs: vec![], mono: k, scale }, out_frames: 2000 });
                     }
                 }
             }
